@@ -45,7 +45,15 @@ def plan_with_clear(pg):
         elif pg.motors:
             g = pg.group()
             nonres += [msg(S, "set", pg.motors[0], rng.choice([1.0, -2.0]), group=g), msg(S, "wait", None, group=g)]
-    if rng.random() < 0.3:
+    pg.handled_failure = False
+    if pg.motors and rng.random() < 0.25:
+        # an operation of the section fails and the plan copes with it (retry / ignore): that changes nothing about
+        # the section being non-resumable
+        # ('locate' is used nowhere else in these plans: its first call is this one, whatever was skipped before)
+        nonres.append({"op": "try", "site": S(), "body": [msg(S, "locate", pg.motors[0])], "handlers": [{"exc": "DeviceFault", "body": [msg(S, "null")], "reraise": False}]})  # (not 'Exception': that would swallow the abort itself)
+        nonres += [msg(S, "null"), msg(S, "sleep", None, 0.3), msg(S, "null")]
+        pg.handled_failure = True
+    elif rng.random() < 0.3:
         nonres.append(msg(S, "pause"))  # a planned pause inside the section
         nonres.append(msg(S, "null"))
     fin_inner = [msg(S, "null")]
@@ -84,6 +92,8 @@ def cases(seed, tier):
         yield case
     else:
         dry, dv, n = generic.dry_run(case)
+        if getattr(pg, "handled_failure", False):
+            case["devices"][pg.motors[0]].setdefault("faults", {})["locate#0"] = {"kind": "raise", "exc": "RuntimeError"}
     K = 12 if tier == "quick" else 24
     for j in range(K):
         c = copy.deepcopy(case)
